@@ -1,6 +1,34 @@
 HOOK_COMMITS = ["6c92ace"]
 NOT_APPLICABLE = {}
 CHECKS = {
+ "C14": {
+  "text": "Coq: validity with exactly the documented exemption at trace level (C14_valid = C01_trace_sound), never-error (C14_never_error: a solvable hard problem is never acceptably refuted, soft phases included), and a verified acceptance oracle (soft_expect_sound / soft_step_ok_spec). Soft-requirement lists are run on the real solver; accepted-by-oracle soft solvables must be in the solution, the hard verdict must not change, the solution must be valid.",
+  "technique": "Coq trace-inclusion + refutation-certificate theorems, and Coq-verified soft-acceptance oracle applied to implementation outputs",
+  "note": "Acceptance is checked only where every soft step is clear-cut for the oracle (counted as applicable in the evidence).",
+ },
+ "C15": {
+  "text": "Coq: model of AtMostOnceTracker::add with invariant proven for every number of candidates and every insertion sequence: exclusivity, each-selectable, none-selectable, re-add no-op (C15_*). Tie: the forbid clauses in the hook dump are re-proved equal to the model's clause list inside Coq for every generated package (n up to 34 quick / 130 thorough, random discovery order and grouping); single/pair verdicts are compared with the verified reference; logs go through the trace checker.",
+  "technique": "Coq induction proof of the binary at-most-one encoding + in-Coq clause-list correspondence + verified reference verdicts",
+ },
+ "C16": {
+  "text": "Coq: executable model of DependencySnapshot::from_provider (breadth-first capture, order through the Mapping iterator) and SnapshotProvider (routing, max+1+k numbering, serde): answers on captured ids equal the live provider's, capture is closed, stored order reproduces any stable rank sort, fresh ids never alias, round-trip is extensionally equal, valid/solvable transfer (C16_*). Tie: per-case in-Coq equalities between model and real snapshot on dense and sparse-id universes; live / snapshot / round-tripped solves judged by the extracted o_valid, o_solvable, o_greedy; fresh processes for hash-order independence.",
+  "technique": "Coq refinement proofs of a functional snapshot model + in-Coq functional correspondence + verified oracles on live vs snapshot solves",
+  "note": "Proved as _refuted (format limits, not violations): availability hints are always stored true; listing order of union members is not represented.",
+ },
+ "C17": {
+  "text": "PARTIAL by construction. Coq: heap model of the shared ref-counted copy-on-write Vector/String protocol (Data/CowVector.v): for every operation sequence from either side of the FFI exact refcounts, untouched static block, no double free, no dangling handle, no leak once all handles are dropped, size <= capacity, copy-on-write refinement to independent lists (C17_*). Tie: generated operation sequences on the real Rust and C++ containers under ASan/UBSan/LSan with a layout-checking allocator, every observation re-proved against the model inside Coq; generated universes solved through resolvo::solve from C++ compared with the Rust API on solution, error text and provider call order.",
+  "technique": "Coq invariant/refinement proof of a heap protocol model + in-Coq functional correspondence with the real Rust and C++ containers under sanitizers + differential C++ vs Rust solves",
+  "note": "Not covered by any theorem: layout compatibility, pointer arithmetic, transmute of id slices, atomics, the Candidates/Dependencies translation layer in cpp/src/lib.rs (exercised under sanitizers / by the differential solve only).",
+ },
+ "C18": {
+  "text": "Coq: models of the chunked append-only Arena and of Pool interning: for every operation sequence intern is idempotent and injective, resolve(intern v) = v forever, solvable/union ids are dense, and the location (chunk, offset) and value of every element is unchanged by any later allocation with chunk lengths never above CHUNK_SIZE (the argument that makes the unsafe reference hand-out sound) (C18_*). Tie: random interleavings on the real Pool crossing chunk boundaries with references (address + value) held across later insertions, each sequence re-proved equal to the model inside Coq.",
+  "technique": "Coq invariant proofs of arena/pool models + in-Coq functional correspondence on operation sequences with held references",
+ },
+ "C20": {
+  "text": "Coq: executable model of SolverCache (tables, hint set, provider call log) proven for every provider and every sequence of public queries to return exactly Spec.matching / nonmatching / sorted_cands / req_cands (favored moved to the front, others' order unchanged), to be idempotent with no repeated provider call, and to answer availability iff fetched or hinted (C20_*). Tie: in-Coq replay of seeded query sequences and solve logs against the real SolverCache (answers, per-query provider calls, availability probes issued from inside sort_candidates).",
+  "technique": "Coq refinement proof of a cache model against the Spec + in-Coq functional correspondence on query sequences",
+  "note": "Sequential queries only; re-entrant get_or_cache_* from inside sort_candidates is exercised through read-only probes.",
+ },
  "C19": {
   "text": "Coq: executable model of Mapping (insert/unset/get/len/is_empty/iter/serde) proven to refine a finite map for every operation sequence (insert_spec, unset_spec, iter_spec: sorted & exactly the stored pairs, len_spec, serde_roundtrip, reachable_inv); every generated operation sequence run on the real Mapping is re-proved equal to the model inside Coq (vm_compute; reflexivity).",
   "technique": "Coq refinement proof of a functional model + in-Coq functional correspondence on operation sequences",
